@@ -7,6 +7,7 @@ pub mod c04;
 pub mod c05;
 pub mod c06;
 pub mod c07;
+pub mod c08r;
 pub mod c09;
 pub mod c10;
 pub mod c11;
@@ -28,6 +29,7 @@ pub fn get(id: &str) -> Option<Property> {
         "C05" => c05::property(),
         "C06" => c06::property(),
         "C07" => c07::property(),
+        "C08" => c08r::property(),
         "C09" => c09::property(),
         "C10" => c10::property(),
         "C11" => c11::property(),
